@@ -92,6 +92,29 @@ class _SSHAuthorizedKeyEntry(OptionsParser):
 
         raise KeyImportError('Unrecognized key, certificate, or subject')
 
+    _permissions = ('X11-forwarding', 'agent-forwarding',
+                    'port-forwarding', 'pty', 'user-rc')
+
+    def _add_option(self, option: str) -> None:
+        """Add an option value
+
+           The flag "restrict" turns every permission off and a later
+           "pty", "port-forwarding", etc. turns a single one back on,
+           as described in sshd(8).
+
+        """
+
+        if option == 'restrict':
+            for permission in self._permissions:
+                self.options['no-' + permission] = True
+
+            self.options[option] = True
+        elif option in self._permissions:
+            self.options.pop('no-' + option, None)
+            self.options[option] = True
+        else:
+            super()._add_option(option)
+
     def _set_string(self, option: str, value: str) -> None:
         """Set an option with a string value"""
 
